@@ -22,7 +22,7 @@ def run(rep, tier, seed):
     for i in range(n):
         mg = mg_big if (not quick and i % 3 == 0) or (quick and i % 10 == 0) else mg_small
         m = mg.model(dynamic=True, kwnames=True, rich_edges=True)
-        xml = GM.render_xml(m, rng, gui=rng.random() < 0.7, cdata="mixed" if i % 25 == 7 else rng.choice([False, "whole"]), empty_elems=rng.random() < 0.4)
+        xml = GM.render_xml(m, rng, gui=rng.random() < 0.7, cdata=rng.choice([False, "whole", "mixed"]), empty_elems=rng.random() < 0.4)
         entry = rng.choice(["xml_buffer", "xml_buffer", "xml_file", "xml_fd"])
         c = Case("m%d" % i, [Step("parse_builder", 0, "xml_buffer", 1, "doc", 1, xml),
                              Step("parse_doc", 1, entry, 1, 1, xml)], timeout=60)
@@ -54,13 +54,6 @@ def run(rep, tier, seed):
         stats["processes"] += sum(len(g) for g in m["system"])
         stats["instantiations"] += len(m["insts"])
         # builder level: exact mirror
-        import re
-        mixed = re.search(rb"[^>]<!\[CDATA\[|\]\]>[^<]", c.steps[0].args[5]) is not None
-        if mixed and sb.get("exc") == "UTAP::XMLReaderError" and sd.get("exc") == "UTAP::XMLReaderError":
-            rep.violation("C04:text-block-in-several-character-nodes-rejected", "a text block written partly as CDATA section and "
-                          "partly with entity escapes (the same character data for an XML parser) makes the reader throw "
-                          "XMLReaderError: %s" % sb.get("excmsg"), c)
-            continue
         if sb.get("exc") or sb["errors"]:
             rep.violation("C04:builder-rejects-valid-model:%s" % (sb.get("exc") or sb["errors"][0]["msg"]),
                           "generated model rejected at builder level: %s %s" % (sb.get("exc"), sb["errors"][:2]), c)
